@@ -1,17 +1,28 @@
-"""C06: number-type conversion (dfkswap.c, dfknat.c, dfconv.c)"""
+"""C06: number-type conversion (dfkswap.c, dfknat.c, dfconv.c)
+
+Units: dfconv_swap_u.c (DFKsb2b/4b/8b), dfconv_nat_u.c (DFKnb1b/2b/4b/8b), dfconv_set_u.c (DFKsetNT,
+DFKNTsize, DFKconvert, DFKislitendNT, DFKisnativeNT); shared vocabulary in stubs/dfconv_common.h.
+
+Why every obligation that executes a kernel loop is `bounded` (and not `proved` with loop contracts as
+DESIGN section 5 planned): the kernels walk `dest`/`source` POINTERS and WRITE through them.  A loop
+contract makes dfcc havoc these pointer variables; cbmc 6.11 dereferences such a pointer against every
+addressed object of the program, which under dfcc includes the ~25 internal write-set objects.  The
+resulting byte_updates exhaust 8 GB already for the 7-line loop of DFKsb2b with a 20-byte buffer and
+the invariant `dest == (uint8*)d + 2*i` (reproduced standalone; __CPROVER_pointer_equals is rejected
+in loop invariants as a side effect).  Reads through a havocked pointer (bitvect.c) are affordable,
+writes are not.  So: loops are unwound, num_elm is capped and the cap is stated.  What IS proved
+without a cap: no elements => FAIL; one element for all 2^(8W) bit patterns and all strides
+(`*_one`, `*_invol`, proved-finite: the loop bound 1 is the statement of the lemma); the in-place fast
+path of DFKnb?b for every num_elm; all of dfconv.c.
+"""
 from .core import ob, prop
 
 SW = dict(unit="dfconv_swap_u.c", file="hdf/src/dfkswap.c", cex_unwind=60)
 NA = dict(unit="dfconv_nat_u.c", file="hdf/src/dfknat.c", cex_unwind=60)
-N = 8
+SE = dict(unit="dfconv_set_u.c", file="hdf/src/dfconv.c")
+STUBS = ["HEclear/HEpush (error stack: no effect on conversion results)"]
+N = 8  # cap on num_elm of the quick-tier bounded obligations
 
-for W in (2, 4, 8):
-    ob(f"sb{W}b_zero", "C06", entry=f"h_sb{W}b_zero", enforce=f"DFKsb{W}b", unwind=1, **SW)
-    ob(f"sb{W}b_one", "C06", entry=f"h_sb{W}b_one", enforce=f"DFKsb{W}b", mode="proved-finite", unwind=2, **SW)
-    ob(f"sb{W}b_invol", "C06", entry=f"h_invol{W}", mode="proved-finite", unwind=2, **SW)
-    for ip in (0, 1):
-        ob(f"sb{W}b_contig_{'in' if ip else 'out'}", "C06", entry=f"h_sb{W}b", enforce=f"DFKsb{W}b", mode="bounded",
-           bound=f"num_elm <= {N}", unwind=N + 1, defines=["SS=0", "DS=0", f"NMAX={N}", f"INPLACE={ip}"], **SW)
 
 def pairs(W):
     """constant stride pairs of the design (plus two equal pairs with gaps for the in-place strided path)"""
@@ -23,21 +34,73 @@ def pairs(W):
     return out
 
 
-for W in (2, 4, 8):
-    for (ss, ds) in pairs(W):
-        for ip in ((0, 1) if ss == ds else (0,)):
-            ob(f"sb{W}b_str_{ss}_{ds}_{'in' if ip else 'out'}", "C06", entry=f"h_sb{W}b", enforce=f"DFKsb{W}b", mode="bounded",
-               bound=f"num_elm <= {N}, strides ({ss},{ds})", unwind=N + 1,
-               defines=[f"SS={ss}", f"DS={ds}", f"NMAX={N}", f"INPLACE={ip}"], **SW)
-    for ip in (0, 1):
-        ob(f"sb{W}b_symstr_{'in' if ip else 'out'}", "C06", entry=f"h_sb{W}b", enforce=f"DFKsb{W}b", mode="bounded",
-           bound=f"num_elm <= 4, all strides {W}..65535" + (" (equal)" if ip else ""), unwind=5,
-           defines=["NMAX=4", f"INPLACE={ip}", "TIGHT"], tier="thorough", **SW)
+def io(ip):
+    return "in" if ip else "out"
 
-SE = dict(unit="dfconv_set_u.c", file="hdf/src/dfconv.c")
-ob("DFKsetNT", "C06", entry="h_setnt", enforce="DFKsetNT", **SE)
-ob("DFKNTsize", "C06", entry="h_ntsize", enforce="DFKNTsize", **SE)
-ob("DFKislitendNT", "C06", entry="h_islitend", enforce="DFKislitendNT", **SE)
-ob("DFKisnativeNT", "C06", entry="h_isnative", enforce="DFKisnativeNT", **SE)
-ob("DFKconvert", "C06", entry="h_convert", enforce="DFKconvert", **SE)
-ob("nt_flavours", "C06", entry="h_flavours", **SE)
+
+# ---- dfkswap.c: byte reversal ------------------------------------------------------------------
+for W in (2, 4, 8):
+    f = f"DFKsb{W}b"
+    ob(f"sb{W}b_zero", "C06", entry=f"h_sb{W}b_zero", enforce=f, unwind=1, trusted=STUBS, **SW)
+    ob(f"sb{W}b_one", "C06", entry=f"h_sb{W}b_one", enforce=f, mode="proved-finite", unwind=2, trusted=STUBS, **SW)
+    ob(f"sb{W}b_invol", "C06", entry=f"h_invol{W}", mode="proved-finite", unwind=2, trusted=STUBS, **SW)
+    for (ss, ds) in [(0, 0)] + pairs(W):
+        for ip in ((0, 1) if ss == ds else (0,)):
+            ob(f"sb{W}b_{'contig' if ss == 0 else f'str_{ss}_{ds}'}_{io(ip)}", "C06", entry=f"h_sb{W}b", enforce=f,
+               mode="bounded", bound=f"num_elm <= {N}, strides ({ss},{ds})", unwind=N + 1,
+               defines=[f"SS={ss}", f"DS={ds}", f"NMAX={N}", f"INPLACE={ip}"], trusted=STUBS, **SW)
+    for ip in (0, 1):
+        n = 2 if (W == 8 and ip) else 3
+        ob(f"sb{W}b_symstr_{io(ip)}", "C06", entry=f"h_sb{W}b", enforce=f, mode="bounded",
+           bound=f"num_elm <= {n}, all strides {W}..65535" + (" (equal)" if ip else ""), unwind=n + 1, timeout=1200,
+           defines=[f"NMAX={n}", f"INPLACE={ip}", "TIGHT"], tier="thorough", trusted=STUBS, **SW)
+    # a larger cap for the contiguous path in the thorough tier
+    for ip in (0, 1):
+        n = 32 if W == 2 else 16
+        ob(f"sb{W}b_contig_{io(ip)}_{n}", "C06", entry=f"h_sb{W}b", enforce=f, mode="bounded",
+           bound=f"num_elm <= {n}, strides (0,0)", unwind=n + 1, timeout=1200,
+           defines=["SS=0", "DS=0", f"NMAX={n}", f"INPLACE={ip}"], tier="thorough", trusted=STUBS, **SW)
+
+# ---- dfknat.c: identity copies.  The fast path uses memcpy: its length is kept <= 64 bytes. ---------
+for W in (1, 2, 4, 8):
+    f = f"DFKnb{W}b"
+    ob(f"nb{W}b_zero", "C06", entry=f"h_nb{W}b_zero", enforce=f, unwind=1, trusted=STUBS, **NA)
+    ob(f"nb{W}b_one", "C06", entry=f"h_nb{W}b_one", enforce=f, mode="proved-finite", unwind=9, trusted=STUBS, **NA)
+    # fast path in place: loop-free and memcpy-free, every num_elm (unwind=1 + unwinding assertions: no loop is entered)
+    ob(f"nb{W}b_inplace_fast", "C06", entry=f"h_nb{W}b_inplace", enforce=f, unwind=1, trusted=STUBS, **NA)
+    for (ss, ds) in [(0, 0)] + pairs(W):
+        fast = (ss, ds) in ((0, 0), (W, W))
+        n = N if (fast or W < 8) else 4  # DFKnb8b's strided loops call memcpy(.., 8): costly to unwind
+        for ip in ((0, 1) if ss == ds else (0,)):
+            if fast and ip:
+                continue  # covered for every num_elm by nb{W}b_inplace_fast
+            ob(f"nb{W}b_{'contig' if ss == 0 else f'str_{ss}_{ds}'}_{io(ip)}", "C06", entry=f"h_nb{W}b", enforce=f,
+               mode="bounded", bound=f"num_elm <= {n}, strides ({ss},{ds})" + (f", memcpy of <= {n * W} bytes" if fast else ""),
+               unwind=(n * W + 2) if fast or W == 8 else n + 1,
+               defines=[f"SS={ss}", f"DS={ds}", f"NMAX={n}", f"INPLACE={ip}"], trusted=STUBS, **NA)
+    for ip in (0, 1):
+        n = 2 if W == 8 else 3
+        ob(f"nb{W}b_symstr_{io(ip)}", "C06", entry=f"h_nb{W}b", enforce=f, mode="bounded",
+           bound=f"num_elm <= {n}, all strides {W}..65535" + (" (equal)" if ip else ""), unwind=9 if W == 8 else n + 1,
+           timeout=1200, defines=[f"NMAX={n}", f"INPLACE={ip}", "TIGHT"], tier="thorough", trusted=STUBS, **NA)
+
+# ---- dfconv.c: routine selection (loop-free: proved) -------------------------------------------------
+KS = STUBS + ["DFKsb2b/4b/8b, DFKnb1b/2b/4b/8b inside dfconv_set_u.c: logging stubs (their contracts are enforced in "
+              "dfconv_swap_u.c / dfconv_nat_u.c)"]
+ob("DFKsetNT", "C06", entry="h_setnt", enforce="DFKsetNT", trusted=KS, **SE)
+ob("DFKNTsize", "C06", entry="h_ntsize", enforce="DFKNTsize", trusted=KS, **SE)
+ob("DFKislitendNT", "C06", entry="h_islitend", enforce="DFKislitendNT", trusted=KS, **SE)
+ob("DFKisnativeNT", "C06", entry="h_isnative", enforce="DFKisnativeNT", trusted=KS, **SE)
+ob("DFKconvert", "C06", entry="h_convert", enforce="DFKconvert", trusted=KS, **SE)
+ob("nt_flavours", "C06", entry="h_flavours", trusted=KS, **SE)
+
+prop("C06",
+     residual="num_elm beyond the stated caps on the looping paths (8 elements per constant stride pair, 3 with symbolic "
+              "strides: cbmc 6.11 cannot apply loop contracts to loops that write through stepped pointers under dfcc, see "
+              "the module docstring); stride pairs outside the stated set for more than 3 elements; 'same values through "
+              "any API' (SD/Vdata/GR call sites of DFKconvert); big-endian hosts; DFconvert (3.0 compatibility) and "
+              "DFKgetPNSC; DFKconvert with an unsupported number type (it ignores DFKsetNT's failure and runs the "
+              "previously installed routine)",
+     assumptions=["A-C06-DOMAIN: callers pass strides 0/0 or both >= element width, in place only with equal strides, and "
+                  "out of place two distinct objects (checked by reading the call sites in dfsd.c, vrw.c, mfgr.c, mfsd.c)",
+                  "A-C06-LE: host configuration is little-endian (H4_WORDS_BIGENDIAN undefined; the units #error otherwise)"])
